@@ -2,6 +2,7 @@ import MemcVerif.Model.Conn
 import MemcVerif.Model.Policy
 import MemcVerif.Model.Server
 import MemcVerif.Model.Conc
+import MemcVerif.Model.PolConc
 /-!
 # Line-protocol driver: runs the executable model on the operations the harness ran on the real code.
 One input line, one output line.
@@ -20,6 +21,9 @@ structure DState where
   srv : Srv := Srv.init 1
   stalled : List Nat := []
   cthreads : List (List CCmd) := []
+  pthreads : List (List PCall) := []
+  psetup : List PCall := []
+  plimit : Nat := 0
 
 /-- the `MemcStore` command a decoded request stands for (loud opcodes of the sched suite) -/
 def reqCCmd (req : Req) : Option CCmd :=
@@ -93,6 +97,75 @@ def decLoop (limit now : Nat) : Nat → MemStore → CodecState → Bytes → Li
     | (.frame r, st', buf') =>
       let (s', o) := handleRequest memOps s now r
       decLoop limit now fuel s' st' buf' (("F" ++ showResp o) :: acc)
+
+def ccmdPCall : CCmd → Option PCall
+  | .set k r => some (.set k r)
+  | .get k => some (.get k)
+  | .delete k c => some (.delete k c)
+  | .flush t => some (.flush t)
+  | _ => none
+
+def framesPCalls (limit : Nat) (frames : List String) : List PCall :=
+  frames.filterMap (fun hx => match fromHex hx with
+    | some b => match Codec.decode limit .none b with
+      | (.frame r, _, _) => (reqCCmd r).bind ccmdPCall
+      | _ => none
+    | none => none)
+
+def phaseName : PPhase → String
+  | .idle => "idle" | .looping _ _ _ => "looping" | .evicting _ _ _ => "evicting" | .evicted _ _ _ => "evicted"
+  | .resetting _ _ _ => "resetting" | .ready _ _ => "ready" | .deleted _ _ => "deleted"
+
+/-- one granted call of the real execution → the model's atomic steps it stands for; `none` = the model's
+    thread is not where the implementation's thread was -/
+def pgrant (s : PSys) (now i : Nat) (what : String) (victim : Option Key) : Option PSys :=
+  match s.threads[i]? with
+  | none => none
+  | some t =>
+    match what, t.phase, t.todo with
+    | "pset", .idle, .set _ _ :: _ => some (s.step now i none)
+    | "len", .looping _ _ u, _ =>
+      if u > s.limit then
+        let s1 := s.step now i none
+        match s1.threads[i]? with
+        | some t1 => (match t1.phase with | .resetting _ _ _ => some (s1.step now i none) | _ => some s1)
+        | none => none
+      else none
+    | "rm", .evicting _ _ _, _ =>
+      let s1 := s.step now i victim
+      match s1.threads[i]? with
+      | some t1 => (match t1.phase with
+        | .evicted _ _ _ => some (s1.step now i none)
+        | _ => if victim.isSome then none else some s1)   -- a reported victim that is not stored
+      | none => none
+    | "set", .looping _ _ u, _ => if u > s.limit then none else some (s.step now i none)
+    | "set", .ready _ _, _ => some (s.step now i none)
+    | "delete", .idle, .delete _ _ :: _ =>
+      let s1 := s.step now i none
+      match s1.threads[i]? with
+      | some t1 => (match t1.phase with | .deleted _ _ => some (s1.step now i none) | _ => some s1)
+      | none => none
+    | "get", .idle, .get _ :: _ => some (s.step now i none)
+    | "flush", .idle, .flush _ :: _ => some (s.step now i none)
+    | _, _, _ => none
+
+def pgrants (s : PSys) (now : Nat) : List String → Nat → PSys × Option String
+  | [], _ => (s, none)
+  | tok :: rest, n =>
+    match tok.splitOn ":" with
+    | i :: what :: vs =>
+      match i.toNat? with
+      | some k =>
+        let victim : Option Key := match vs with
+          | [hx] => if hx == "-" then none else fromHex hx
+          | _ => none
+        match pgrant s now k what victim with
+        | some s' => pgrants s' now rest (n + 1)
+        | none =>
+          let ph := match s.threads[k]? with | some t => phaseName t.phase | none => "absent"
+          (s, some s!"desync at call {n} ({tok}): model thread {k} is {ph}")
+      | none => (s, some s!"bad token {tok}")
+    | _ => (s, some s!"bad token {tok}")
 
 def step (d : DState) (line : String) : DState × String :=
   match line.trimAscii.toString.splitOn " " with
@@ -194,6 +267,32 @@ def step (d : DState) (line : String) : DState × String :=
     let sys' := sys.run d.now (sched ++ completion)
     let res := (List.range n).zip sys'.threads |>.map (fun (i, t) => s!"t{i}=" ++ ",".intercalate (t.results.map canonRes))
     ({ d with store := sys'.store, cthreads := [] }, "res " ++ " ".intercalate res ++ " | " ++ dumpMem sys'.store.mem)
+  | ["pcnew", n, l] =>
+    match n.toNat?, l.toNat? with
+    | some k, some pl => ({ limit := k, plimit := pl }, "ok")
+    | _, _ => (d, "bad-op")
+  | "psetup" :: frames => ({ d with psetup := framesPCalls d.limit frames }, "ok")
+  | "pthread" :: i :: frames =>
+    match i.toNat? with
+    | some k =>
+      let padded := d.pthreads ++ List.replicate (k + 1 - d.pthreads.length) []
+      ({ d with pthreads := padded.set k (framesPCalls d.limit frames) }, "ok")
+    | none => (d, "bad-op")
+  | "psched" :: n0 :: n1 :: toks =>
+    match n0.toNat?, n1.toNat? with
+    | some t0, some t1 =>
+      let n := d.pthreads.length
+      -- the setup runs sequentially (thread n) at time t0 before the concurrent phase at time t1
+      let sys0 := PSys.init d.plimit (d.pthreads ++ [d.psetup])
+      let sys1 := (List.replicate (4 * d.psetup.length + 1) (n, (none : Option Key))).foldl (fun s e => s.step t0 e.1 e.2) sys0
+      let setupOk := (match sys1.threads[n]? with | some t => t.finished | none => false)
+      let sys1 := { sys1 with racy := false }
+      let (sys2, err) := pgrants sys1 t1 toks 0
+      let res := (List.range n).zip sys2.threads |>.map (fun (i, t) => s!"t{i}=" ++ ",".intercalate (t.results.map canonRes))
+      let tail := match err with | some e => " | " ++ e | none => ""
+      ({ d with pthreads := [], psetup := [] },
+        "pres " ++ " ".intercalate res ++ " | " ++ dumpMem sys2.inner.mem ++ s!" | usage={sys2.usage} racy={sys2.racy} rest={sys2.quiescent} setup={setupOk}" ++ tail)
+    | _, _ => (d, "bad-op")
   | "stress" :: _ => (d, "ok")
   | "note" :: _ => (d, "ok")
   | "ext" :: n :: _ =>
